@@ -1,7 +1,7 @@
 use std::iter::once;
 
 use crate::bound::{Bounds, WhereClauseBuilder};
-use crate::syn_utils::{expand_self, self_type};
+use crate::syn_utils::{expand_self, parenthesize_fragments, self_type};
 use proc_macro2::{Span, TokenStream, TokenTree};
 use quote::{quote, quote_spanned, ToTokens};
 use structmeta::{Flag, ToTokens};
@@ -1103,7 +1103,7 @@ struct Template(TokenStream);
 
 impl Template {
     fn new(input: impl ToTokens) -> Self {
-        Self(input.to_token_stream())
+        Self(parenthesize_fragments(input.to_token_stream()))
     }
     /// `$` stands for an expression: the input must still be an expression with one in its place.
     fn new_checked(input: Expr) -> Result<Self> {
